@@ -123,3 +123,14 @@ func ZZDebug6() {
 }
 
 func init() { ZZHarnesses["ZZDebug6"] = ZZDebug6 }
+
+func ZZDebug7() {
+	s := jschema.New("s", `1 // {type: ""}`)
+	err := s.Check()
+	if err != nil {
+		v.Observe("err", err.Error())
+	}
+	v.Assert(err == nil, "debug")
+}
+
+func init() { ZZHarnesses["ZZDebug7"] = ZZDebug7 }
